@@ -15,8 +15,10 @@ package plenc
 //@ func plenc.*baseRegistry.Load
 //@   safety C17 C08
 //@   trust typeassert                   # the registry only ever stores Codec values (Store / StoreOrSwap signatures)
-//@   pure H
 //@   assigns nothing
+//@   # the codec found is the one stored under exactly the key (typ, tag), and nothing else is consulted
+//@   ensures[C17] @sync.*Map.Load(br, boxed(plenc.registryKey, typ, tag)).ok ==> result.typ == @sync.*Map.Load(br, boxed(plenc.registryKey, typ, tag)).value.typ && result.data == @sync.*Map.Load(br, boxed(plenc.registryKey, typ, tag)).value.data
+//@   ensures[C17] !@sync.*Map.Load(br, boxed(plenc.registryKey, typ, tag)).ok ==> result == nil
 
 //@ func plenc.*baseRegistry.Store
 //@   safety C17
